@@ -708,6 +708,20 @@ def rule_length(facts, impls):
             bad = None
             nleaf = 0
             for conds, leaf in _leaves(fin):
+                # a leaf that needs one predicate to take two different values lies on no path (the case tree is built per
+                # value, not per path: `let a = if c {..}; .. if c {..}` yields such combinations)
+                seen_labs = {}
+                infeasible = False
+                for cexpr, labs in conds:
+                    k_ = E.canon(E.strip_casts(cexpr)) if isinstance(cexpr, tuple) else str(cexpr)
+                    ls_ = set(labs) if isinstance(labs, tuple) else {labs}
+                    if "else" in ls_:
+                        continue
+                    if k_ in seen_labs and not (seen_labs[k_] & ls_):
+                        infeasible = True
+                    seen_labs[k_] = seen_labs.get(k_, ls_) & ls_ if k_ in seen_labs else ls_
+                if infeasible:
+                    continue
                 subst = {}
                 for cexpr, labs in conds:
                     ce = E.strip_casts(cexpr)
